@@ -140,6 +140,7 @@ struct NewObj {
     bool freq_set = false, m_error = false, pristine = true, partial_s = false, has_cal = false, ever_solved = false;
     bool had_fail = false, ok_after_fail = false, failed_solve = false, retried = false;
     std::set<int> registered;        // parameters (pool index) used by accepted standards
+    std::set<int> stale;             // parameters of rejected standards (open finding: they may stay registered)
     std::vector<HistOp> hist; std::vector<std::string> hist_desc;
     int refused = 0;
 };
@@ -195,8 +196,10 @@ struct Exec {
     }
     template <class F> int icall(Call &k, F f) { k.rk = R_INT; pre(k); int r = f(); post(k, r == -1, r); return r; }
     template <class T, class F> T *pcall(Call &k, F f) { k.rk = R_PTR; pre(k); T *r = f(); post(k, r == nullptr, r != nullptr); return r; }
-    template <class F> double dcall(Call &k, F f) { k.rk = R_DBL; pre(k); double r = f(); post(k, r == HUGE_VAL, 0); return r; }
-    template <class F> dcx ccall(Call &k, F f) { k.rk = R_CPX; pre(k); dcx r = f(); post(k, re_(r) == HUGE_VAL, 0); return r; }
+    // NULL is also a legitimate answer (empty vector / empty subtree): failure = NULL with errno set
+    template <class T, class F> T *pcall0(Call &k, F f) { k.rk = R_PTR; pre(k); T *r = f(); post(k, r == nullptr && errno != 0, r != nullptr); return r; }
+    template <class F> double dcall(Call &k, F f) { k.rk = R_DBL; pre(k); double r = f(); post(k, r == HUGE_VAL && (k.expect == XP_FAIL || errno != 0), 0); return r; }   // a stored value may itself be infinite
+    template <class F> dcx ccall(Call &k, F f) { k.rk = R_CPX; pre(k); dcx r = f(); post(k, re_(r) == HUGE_VAL && (k.expect == XP_FAIL || errno != 0), 0); return r; }
     template <class F> void vcall(Call &k, F f) { k.rk = R_VOID; k.expect = XP_EITHER; pre(k); f(); post(k, false, 0); }
     // per-object "a failing call was followed by a succeeding call on the same object"
     void track(const Call &k) {
